@@ -1,5 +1,6 @@
 // Models of the few libstdc++.so entry points reachable from the verified units.
 #include <set>
+#include <string>
 #include <cstddef>
 extern "C" void v_throw_std(int kind);
 namespace std {
@@ -58,3 +59,7 @@ void __throw_out_of_range_fmt(const char*, ...) { v_throw_std(4); __builtin_unre
 void __throw_logic_error(const char*) { v_throw_std(5); __builtin_unreachable(); }
 void __throw_bad_function_call() { v_throw_std(6); __builtin_unreachable(); }
 }
+
+// std::string: libstdc++ declares `extern template class basic_string<char>` (members live in libstdc++.so);
+// this explicit instantiation definition gives every member an IR body compiled from the real libstdc++ headers.
+template class std::__cxx11::basic_string<char>;
